@@ -35,6 +35,9 @@ type c16Scenario struct {
 	Kind string `json:"kind"` // expiration | gc | liveness | health
 	// clock offset relative to the documented threshold, in seconds (negative = before)
 	OffsetSec int `json:"offsetSec"`
+	// SubNanos: the clock additionally stands this many nanoseconds off the whole second (API timestamps have second
+	// granularity, clocks do not)
+	SubNanos int64 `json:"subNanos,omitempty"`
 	// expiration
 	ExpireAfter string `json:"expireAfter,omitempty"`
 	Deleting    bool   `json:"deleting,omitempty"`
@@ -56,7 +59,8 @@ type c16Scenario struct {
 var c16Offsets = []int{-3600, -61, -1, 0, 1, 61, 3600}
 
 func drawC16(t *rapid.T) *c16Scenario {
-	s := &c16Scenario{Kind: rapid.SampledFrom([]string{"expiration", "gc", "gc", "liveness", "health", "health"}).Draw(t, "kind"), OffsetSec: rapid.SampledFrom(c16Offsets).Draw(t, "offset")}
+	s := &c16Scenario{Kind: rapid.SampledFrom([]string{"expiration", "gc", "gc", "liveness", "health", "health"}).Draw(t, "kind"), OffsetSec: rapid.SampledFrom(c16Offsets).Draw(t, "offset"),
+		SubNanos: rapid.SampledFrom([]int64{0, 0, 0, 0, -1, -500000000, -999999999, 1, 500000000}).Draw(t, "subNanos")}
 	switch s.Kind {
 	case "expiration":
 		s.ExpireAfter = rapid.SampledFrom([]string{"Never", "0s", "10m", "1h", "720h"}).Draw(t, "expireAfter")
@@ -148,6 +152,8 @@ func runC16(s *c16Scenario, faultIdx int) *c16Run {
 	np.Spec.Template.Spec.ExpireAfter = v1.MustParseNillableDuration("Never")
 	pool := w.ApplyPool(np)
 	now := w.Clock.Now()
+	sub := time.Duration(s.SubNanos)
+	w.Clock.SetTime(now.Add(sub))
 	inController := false
 	faultFired := false
 	providerListFailed := false
@@ -182,6 +188,7 @@ func runC16(s *c16Scenario, faultIdx int) *c16Run {
 		}
 	})
 	off := time.Duration(s.OffsetSec) * time.Second
+	early := off+sub < 0 // the clock has not reached the threshold yet
 	r.nearEdge = s.OffsetSec >= -1 && s.OffsetSec <= 1
 
 	switch s.Kind {
@@ -205,8 +212,8 @@ func runC16(s *c16Scenario, faultIdx int) *c16Run {
 		if r.deleted["claim-1"] && !s.Deleting {
 			if s.ExpireAfter == "Never" {
 				violate("expiration:disabled", "NodeClaim with expireAfter=Never was deleted by the expiration controller")
-			} else if s.OffsetSec < 0 {
-				violate("expiration:early", "NodeClaim deleted %ds before creation+expireAfter (%s)", -s.OffsetSec, s.ExpireAfter)
+			} else if early {
+				violate("expiration:early", "NodeClaim deleted %s before creation+expireAfter (%s)", -(off + sub), s.ExpireAfter)
 			}
 		}
 	case "gc":
@@ -294,8 +301,8 @@ func runC16(s *c16Scenario, faultIdx int) *c16Run {
 		if r.deleted["claim-1"] {
 			if s.Launched && s.RegisteredTrue {
 				violate("liveness:registered", "a registered NodeClaim was deleted by the liveness check")
-			} else if s.OffsetSec < 0 {
-				violate("liveness:early", "NodeClaim deleted %ds before its %s timeout elapsed", -s.OffsetSec, threshold)
+			} else if early {
+				violate("liveness:early", "NodeClaim deleted %s before its %s timeout elapsed", -(off + sub), threshold)
 			}
 		}
 	case "health":
@@ -341,10 +348,10 @@ func runC16(s *c16Scenario, faultIdx int) *c16Run {
 			lasted := false
 			readyFalse := s.Condition == "ready-false" || s.Condition == "both"
 			badTrue := s.Condition == "badnode-true" || s.Condition == "both"
-			if readyFalse && !now.Before(readySince.Add(readyTol)) {
+			if readyFalse && !now.Add(sub).Before(readySince.Add(readyTol)) {
 				lasted = true
 			}
-			if badTrue && !now.Before(badSince.Add(badTol)) {
+			if badTrue && !now.Add(sub).Before(badSince.Add(badTol)) {
 				lasted = true
 			}
 			unhealthy := s.Unhealthy
